@@ -24,9 +24,9 @@ m=json.load(open('$src/meta.json'))
 print(m.get('demo_cmd',''))
 PY
 )
-for f in $src/demo/*; do
+for f in $(find $src/demo -type f \( -name "*.go" -o -name "*.sqlite" -o -name "*.json" -o -name "*.sh" \)); do
   # placement: same relative dir as in the seed worktree
-  rel=$(cd /tmp/seed-$id 2>/dev/null && git status --porcelain | awk '{print $2}' | grep "$(basename $f)" | head -1)
+  rel=$(cd /tmp/seed-$id 2>/dev/null && git status --porcelain | awk '{print $2}' | grep "$(basename $f)\$" | head -1)
   [ -z "$rel" ] && rel=$(python3 -c "
 import json,re
 m=json.load(open('$src/meta.json'))
